@@ -301,16 +301,22 @@ func (b *Bucket) DeleteBucket(key []byte) (err error) {
 		return errors.ErrIncompatibleValue
 	}
 
-	// Recursively delete all child buckets.
+	// Recursively delete all child buckets. Collect the names first: deleting
+	// while iterating shifts the elements of a materialized node under the
+	// cursor, which would skip (and leak) every other child bucket.
 	child := b.Bucket(newKey)
+	var childKeys [][]byte
 	err = child.ForEachBucket(func(k []byte) error {
-		if err := child.DeleteBucket(k); err != nil {
-			return fmt.Errorf("delete bucket: %s", err)
-		}
+		childKeys = append(childKeys, cloneBytes(k))
 		return nil
 	})
 	if err != nil {
 		return err
+	}
+	for _, k := range childKeys {
+		if err := child.DeleteBucket(k); err != nil {
+			return fmt.Errorf("delete bucket: %s", err)
+		}
 	}
 
 	// Remove cached copy.
